@@ -1,6 +1,12 @@
 use crate::intermediate::{Var, IR};
 use std::{collections::HashMap, io::Write};
 
+/// The words Lua reserves - they can't be used as names in the generated code.
+const LUA_KEYWORDS: [&str; 22] = [
+    "and", "break", "do", "else", "elseif", "end", "false", "for", "function", "goto", "if", "in",
+    "local", "nil", "not", "or", "repeat", "return", "then", "true", "until", "while",
+];
+
 macro_rules! write {
     ($out:expr, $msg:expr ) => {
         // :3
@@ -231,7 +237,12 @@ impl<'a, 'b> Generator<'a, 'b> {
                     let t = self.expand(t);
                     write!(self.out, "{}", t);
                     write!(self.out, " = ");
-                    write!(self.out, e);
+                    // A word Lua reserves can't be written as a name - the global is still there.
+                    if LUA_KEYWORDS.contains(&e.as_str()) {
+                        write!(self.out, "_G[\"{}\"]", e);
+                    } else {
+                        write!(self.out, e);
+                    }
                 }
 
                 IR::Call(t, f, args) => {
